@@ -569,7 +569,8 @@ def gql_description(d, text):
     return gql_string(text)
 
 
-def render_sdl_rich(d, desc, *, deprecations=True, directives=True, descriptions=True, extend=True, empty_descriptions_ok=False):
+def render_sdl_rich(d, desc, *, deprecations=True, directives=True, descriptions=True, extend=True, empty_descriptions_ok=False,
+                    printed_target=True):
     """SDL with descriptions, deprecations, custom directives, specifiedBy, schema description, extend type."""
     out = []
 
@@ -625,6 +626,17 @@ def render_sdl_rich(d, desc, *, deprecations=True, directives=True, descriptions
                 d.tag("sdl.repeatable_directive")
             out.append(f"{descr()}directive @{name}" + ("(" + ", ".join(args) + ")" if args else "") + rep + " on " + " | ".join(locs))
             d.tag("sdl.custom_directive")
+    if directives and d.bool(0.15) and (not printed_target or d.enabled("sdl.redefined_specified_directive")):
+        # (KF-C16-3: the printed .graphql / .gql target cannot carry it - print_schema omits specified directives)
+        # an SDL that spells out its own definition of a specified directive (server dumps do): other description,
+        # other default - the schema's directive is then NOT graphql-core's stock object
+        out.append(d.choice([
+            '"""own wording"""\ndirective @deprecated(reason: String = "gone") on FIELD_DEFINITION | ARGUMENT_DEFINITION | INPUT_FIELD_DEFINITION | ENUM_VALUE',
+            '"""skip, as this server documents it"""\ndirective @skip("""the condition""" if: Boolean!) on FIELD | FRAGMENT_SPREAD | INLINE_FRAGMENT',
+            'directive @include(if: Boolean!) on FIELD | FRAGMENT_SPREAD | INLINE_FRAGMENT',
+            '"""where the scalar is specified"""\ndirective @specifiedBy(url: String!) on SCALAR',
+        ]))
+        d.tag("sdl.redefined_specified_directive")
     for s in desc.scalars:
         sb = ""
         if d.bool(0.4):
